@@ -393,3 +393,51 @@ pub fn nest_json(k: usize) -> serde_json::Value {
     }
     v
 }
+
+/// k nested JSON objects: {"o": {"o": ... {}}}
+pub fn nest_json_obj(k: usize) -> serde_json::Value {
+    let mut v = json!({});
+    for _ in 1..k {
+        v = json!({"o": v});
+    }
+    v
+}
+
+/// k nested JSON containers alternating object / array (outermost: object if `obj_outer`)
+pub fn nest_json_mixed(k: usize, obj_outer: bool) -> serde_json::Value {
+    let mut v = json!([]);
+    // build inside-out so that the outermost kind is as requested
+    let mut obj = if k % 2 == 1 { obj_outer } else { !obj_outer };
+    if obj {
+        v = json!({});
+    }
+    for _ in 1..k {
+        obj = !obj;
+        v = if obj { json!({"o": v}) } else { json!([v]) };
+    }
+    v
+}
+
+/// k nested FieldValue maps
+pub fn nest_fv_map(k: usize) -> Fv {
+    let mut v = Fv::Map(BTreeMap::new());
+    for _ in 1..k {
+        v = Fv::Map(BTreeMap::from([(Fk::Text("m".into()), v)]));
+    }
+    v
+}
+
+/// k nested FieldValue containers alternating map / array (outermost: map)
+pub fn nest_fv_mixed(k: usize) -> Fv {
+    let mut v = if k % 2 == 1 { Fv::Map(BTreeMap::new()) } else { Fv::Array(vec![]) };
+    let mut map = k % 2 == 1;
+    for _ in 1..k {
+        map = !map;
+        v = if map { Fv::Map(BTreeMap::from([(Fk::I64(1), v)])) } else { Fv::Array(vec![v]) };
+    }
+    v
+}
+
+/// limit-1, limit, limit+1, limit+2, a little more, between the budget and the
+/// conversion bound (128), and beyond both
+pub const TOWER_HEIGHTS: [usize; 9] = [63, 64, 65, 66, 70, 100, 128, 130, 140];
